@@ -119,7 +119,8 @@ def gen_world(seed, tier):
             long_pause_before = len(seq) - 1
         for si, s in enumerate(seq):
             if si == long_pause_before:
-                ops.append({"op": "pause", "h": h, "seconds": so0["time_limit"] * rng.choice([2, 10])})
+                # ... or after almost all of it has passed
+                ops.append({"op": "pause", "h": h, "seconds": so0["time_limit"] * rng.choice([2, 10, 0.97, 0.995, 0.9995])})
             if rng.random() < 0.25:
                 # the caller does something else for a while: (virtual) wall time passes between two calls
                 ops.append({"op": "pause", "h": h, "seconds": rng.choice([30, 100, 1000, 5000, 20000])})
@@ -128,7 +129,8 @@ def gen_world(seed, tier):
     # interleave a little: move some getter ops of earlier models to the end
     tail = [o for o in ops if o["op"] in ("get_solution", "get_objective_value") and rng.random() < 0.3]
     ops = [o for o in ops if o not in tail] + tail
-    sim = {"latency": "instant", "reply": rng.choice(["canonical", "canonical", "alt"]), "reply_seed": rng.randrange(1 << 30), "faults": []}
+    sim = {"latency": rng.choice(["instant", "instant", "realistic"]), "reply": rng.choice(["canonical", "canonical", "alt"]),
+           "reply_seed": rng.randrange(1 << 30), "faults": []}
     if rng.random() < 0.35:
         sim["faults"] = [{"at": rng.randrange(0, 4), "kind": rng.choice(["interrupt", "time_limit_with_incumbent", "time_limit_no_incumbent", "exception"])}]
     return {"pool": pool, "ops": ops, "sim": sim,
